@@ -95,7 +95,7 @@ def oracle_one(cfg: e3.E3Config, obs, msgs):
     # the "Logging error" dump of a record that could not be sent, is not a delivery
     seen_tokens: collections.Counter = collections.Counter()
     PREFIX = {'log': 'log', 'dlog': 'dbg', 'warn': 'warn', 'exc': 'exc', 'burst': 'b', 'print': 'out', 'iprint': 'out', 'nprint': 'out',
-              'wprint': 'out', 'eprint': 'out', 'rprint': 'out', 'err': 'err', 'tprint': 'out'}
+              'wprint': 'out', 'eprint': 'out', 'rprint': 'out', 'err': 'err', 'tprint': 'out', 'bprint': 'out'}
     first_lines = collections.Counter(m.split('\n', 1)[0] for m in msgs)
     all_lines = collections.Counter(ln.strip() for m in msgs for ln in m.split('\n'))
     for i, pat in cfg.base.emit:
@@ -199,7 +199,7 @@ def _real(a):
 
 def real_cases(tier: str):
     out = []
-    pats = [('log', 'print'), ('print+flush+print+flush', 'log+print+err+eflush'), ('print', 'print'), ('nprint+iprint', 'exc'), ('wprint', 'eprint'), ('log+print+flush+die', 'log'), ('print+rprint', 'err'), ('dlog', 'log+dlog'), ('tprint', 'print+tprint'), ('wrap+print', 'print+wrap+print')]
+    pats = [('log', 'print'), ('print+flush+print+flush', 'log+print+err+eflush'), ('print', 'print'), ('nprint+iprint', 'exc'), ('wprint', 'eprint'), ('log+print+flush+die', 'log'), ('print+rprint', 'err'), ('dlog', 'log+dlog'), ('bprint', 'print+bprint'), ('tprint', 'print+tprint'), ('wrap+print', 'print+wrap+print')]
     for pa, pb in pats:
         for shape in [((), ()), ((), (0,))]:
             base = e2.Config(spec=mk_spec(shape), requested=((0, False), (1, False)), emit=((0, pa), (1, pb)))
@@ -228,7 +228,7 @@ def configs(tier: str):
              ('print+rprint+flush', 'log', ()), ('print+rprint+rprint+print', 'print', ()), ('err+rprint', 'rprint', ()),
              ('print', 'log', (0,)), ('print+err', 'print+flush', (0,)), ('log+print', 'print', (1,)), ('print', 'print', (0, 1)),
              ('iprint+flush+nprint', 'log', ()), ('nprint', 'iprint', ()), ('burst1200', 'log', ()),
-             ('tprint', 'log', ()), ('print+tprint+flush+tprint', 'tprint', ()), ('wrap+print', 'log', ()), ('print+wrap+print', 'wrap+print+flush+print', ()),
+             ('bprint', 'log', ()), ('print+bprint+flush', 'bprint', ()), ('tprint', 'log', ()), ('print+tprint+flush+tprint', 'tprint', ()), ('wrap+print', 'log', ()), ('print+wrap+print', 'wrap+print+flush+print', ()),
              ('exc', 'print', ()), ('log+exc', 'exc', (1,)), ('wprint', 'print+flush+eprint', ()), ('print+flush+wprint', 'eprint', ())]
     for pa, pb, faults in extra:
         for shape in shapes2[:1] if pa.startswith('burst') else shapes2:
